@@ -1,0 +1,10 @@
+//go:build !verif
+
+package tubes
+
+// verifYield and verifTubeState mark points where the verification harness (build tag verif)
+// perturbs the schedule and logs tube-state transitions; without the tag they are empty
+// functions that the compiler inlines away.
+func verifYield(string) {}
+
+func verifTubeState(*Reliable, string) {}
